@@ -177,7 +177,9 @@ func (e *Explore) Run(ctx context.Context, con int) error {
 							time.Sleep(e.retryInterval)
 							e.targetsLock.Lock()
 							defer e.targetsLock.Unlock()
-							if e.targets[hash] != nil {
+							// retry only while this very target is still discovered: if it was
+							// removed and discovered again, the new entry is explored on its own
+							if e.targets[hash] == tar {
 								e.needExplore <- tar
 							}
 						}()
